@@ -438,7 +438,8 @@ def worker_streams(run, thorough):
             cases.append(mc.Case("thr", q, 18, 0, t, "rand", 20000 * t + 1, rng.randrange(1, 1 << 30)))
     answers = mc.run_impl(exe, cases, budget=mc.HangBudget())
     stats = {"calls": 0, "jobs_checked_against_C08_part": 0, "jobs_with_magic_header_skipped": 0, "later_parts_shape_checked": 0,
-             "tightest_part_margin": None, "tightest_call_margin": None, "calls_not_run": 0}
+             "tightest_part_margin": None, "tightest_call_margin": None, "calls_not_run": 0,
+             "calls_checked_against_C08_concat_saving": 0, "tightest_seam_margin_bits": None}
     nrep = 0
     for c, a in zip(cases, answers):
         if a.notrun or a.kind in ("TOOL", "NORETURN", "?"):
@@ -456,6 +457,23 @@ def worker_streams(run, thorough):
         if stats["tightest_call_margin"] is None or mg < stats["tightest_call_margin"]:
             stats["tightest_call_margin"] = mg
         tr = mc.parse_events(a.ev)
+        # the conclusion of C08_concat_saving on the real concatenator's output: with T later parts of at least 6 bytes
+        # and a window field of wl bits, 8 * stitched + 8 * ceil((wl + 20) / 8) * T <= 8 * (sum of the parts) + 25 * T + 7
+        fin = {i: tr["C"][i][-1]["oo"] for i in tr["J"] if tr["C"].get(i) and tr["C"][i][-1]["fin"]}
+        if len(fin) == len(tr["J"]) == c.t and all(v >= 6 for v in fin.values()) and all(i in tr["D"] for i in fin):
+            lg = tr["D"][0]["w"]
+            wl = 14 if (c.f & 16) else 1 if lg == 16 else 7 if (lg == 17 or lg < 16) else 4
+            T = c.t - 1
+            lhs, rhs = 8 * a.n + 8 * ((wl + 27) // 8) * T, 8 * sum(fin.values()) + 25 * T + 7
+            stats["calls_checked_against_C08_concat_saving"] += 1
+            if stats["tightest_seam_margin_bits"] is None or rhs - lhs < stats["tightest_seam_margin_bits"]:
+                stats["tightest_seam_margin_bits"] = rhs - lhs
+            if lhs > rhs and nrep < 4:
+                nrep += 1
+                run.report("correspondence", cd, {"impl": a.head[:300], "parts": fin, "stitched": a.n, "window_field_bits": wl},
+                           broken="the conclusion of C08_concat_saving fails on the real concatenator: %d parts of %s bytes were stitched into %d bytes "
+                                  "(concat_spec does not describe CompressMulti's stitching, or the parts are not of the assumed shape)" % (c.t, sorted(fin.items()), a.n),
+                           found_input=False)
         for i, j in sorted(tr["J"].items()):
             d = tr["D"].get(i)
             calls = tr["C"].get(i, [])
